@@ -175,13 +175,54 @@ class SimServer:
     return None
 
 
+def _retry_policy(options):
+  """(max_attempts, retryable status names) of a channel's service config, gRPC's client-side retries."""
+  import json  # pylint: disable=g-import-not-at-top
+  opts = dict(options or ())
+  if not opts.get('grpc.enable_retries', 1) or 'grpc.service_config' not in opts:
+    return None
+  try:
+    cfg = json.loads(opts['grpc.service_config'])
+    for mc in cfg.get('methodConfig', []):
+      rp = mc.get('retryPolicy')
+      if rp:
+        return (min(int(rp.get('maxAttempts', 1)), 5), set(rp.get('retryableStatusCodes', [])),
+                float(str(rp.get('initialBackoff', '0.1s')).rstrip('s') or 0.1))
+  except Exception:  # pylint: disable=broad-except
+    return None
+  return None
+
+
 class SimChannel:
 
-  def __init__(self, net, endpoint):
+  def __init__(self, net, endpoint, options=None):
     self.net = net
     self.endpoint = endpoint
+    self.retry = _retry_policy(options)
 
   def unary_unary(self, method, request_serializer=None, response_deserializer=None, **kw):
+    net = self.net
+    once = self._unary_unary_once(method, request_serializer, response_deserializer)
+    if self.retry is None:
+      return once
+    max_attempts, retryable, backoff = self.retry
+
+    def invoke_with_retries(request, timeout=None, metadata=None, **kw2):
+      attempt = 1
+      while True:
+        try:
+          return once(request, timeout=timeout, metadata=metadata, **kw2)
+        except SimRpcError as e:
+          if attempt >= max_attempts or e.code().name not in retryable:
+            raise
+          attempt += 1
+          net.fired['channel-retry'] = net.fired.get('channel-retry', 0) + 1
+          if net.clock is not None:
+            net.clock.advance(backoff)
+
+    return invoke_with_retries
+
+  def _unary_unary_once(self, method, request_serializer=None, response_deserializer=None, **kw):
     net = self.net
 
     def invoke(request, timeout=None, metadata=None, **kw2):
@@ -271,8 +312,8 @@ class GrpcShim:
     return SimServer(self._net, max_workers=getattr(thread_pool, '_max_workers', None),
                      maximum_concurrent_rpcs=maximum_concurrent_rpcs)
 
-  def insecure_channel(self, endpoint, *a, **k):
-    return SimChannel(self._net, endpoint)
+  def insecure_channel(self, endpoint, options=None, *a, **k):
+    return SimChannel(self._net, endpoint, options=options)
 
   def channel_ready_future(self, channel):
     return _Ready()
